@@ -283,6 +283,14 @@ var pair2Corpus = [][4]string{
 	{"+proj=lcc +lat_1=44.33333333333334 +lat_2=46 +lat_0=43.66666666666666 +lon_0=-120.5 +x_0=609601.2192024384 +y_0=152400.3048006096 +a=6378137 +rf=298.257222101 +datum=NAD83 +units=us-ft +no_defs", `PROJCS["NAD_1983_StatePlane_Oregon_North_FIPS_3601_Feet",GEOGCS["GCS_North_American_1983",DATUM["D_North_American_1983",SPHEROID["GRS_1980",6378137.0,298.257222101]],PRIMEM["Greenwich",0.0],UNIT["Degree",0.0174532925199433]],PROJECTION["Lambert_Conformal_Conic"],PARAMETER["False_Easting",2000000.0],PARAMETER["False_Northing",500000.0],PARAMETER["Central_Meridian",-120.5],PARAMETER["Standard_Parallel_1",44.33333333333334],PARAMETER["Standard_Parallel_2",46.0],PARAMETER["Latitude_Of_Origin",43.66666666666666],UNIT["Foot_US",0.3048006096012192]]`, "-121", "45"},
 }
 
+func init() {
+	// WKT that leaves latitude_of_origin to default to standard_parallel_1
+	pair2Corpus = append(pair2Corpus, [4]string{
+		"+proj=lcc +lat_1=41.5 +lat_0=41.5 +lon_0=3 +x_0=100 +y_0=200 +a=6378388 +rf=297 +towgs84=-87,-98,-121 +units=m +no_defs",
+		`PROJCS["x",GEOGCS["g",DATUM["D_x",SPHEROID["s",6378388,297],TOWGS84[-87,-98,-121]],PRIMEM["Greenwich",0],UNIT["degree",0.0174532925199433]],PROJECTION["Lambert_Conformal_Conic"],PARAMETER["Standard_Parallel_1",41.5],PARAMETER["Central_Meridian",3],PARAMETER["False_Easting",100],PARAMETER["False_Northing",200],UNIT["Meter",1]]`,
+		"4", "42"})
+}
+
 var eqCorpus = [][2]string{
 	{"+proj=longlat +a=6378137 +rf=298.25 +towgs84=1,2,3", "+proj=longlat +a=6378137 +rf=298.25 +towgs84=1,2,3,0,0,0,0"},
 	{"+proj=longlat +a=6378137 +rf=298.25 +towgs84=1,2,3", "+proj=longlat +a=6378137 +rf=298.25 +towgs84=1,2,3,1,1,1,1"},
@@ -339,7 +347,9 @@ func mutate(r *vproto.Rng, s string) string {
 func gen(seed uint64, tier string) {
 	w := bufio.NewWriterSize(os.Stdout, 1<<20)
 	defer w.Flush()
-	r := vproto.NewRng(seed)
+	// NewRng(seed) and NewRng(seed+k) are the same splitmix stream shifted by k draws; re-seed from
+	// the first (hashed) output so that different seeds give unrelated streams
+	r := vproto.NewRng(vproto.NewRng(seed).U64())
 	for _, n := range regNames {
 		fmt.Fprintf(w, "reg %s\n", n)
 	}
@@ -356,9 +366,9 @@ func gen(seed uint64, tier string) {
 		fmt.Fprintf(w, "prj %s\n", hx(s))
 	}
 	fmt.Fprintf(w, "prj %s\n", hx(rawCorpus[37]+"\n"))
-	nCrs, nMut := 400, 300
+	nCrs, nMut := 1500, 1200
 	if tier == "thorough" {
-		nCrs, nMut = 6000, 4000
+		nCrs, nMut = 40000, 30000
 	}
 	for _, k := range []string{"geog", "merc", "lcc", "aea", "eqdc", "tmerc"} {
 		for i := 0; i < 6; i++ {
